@@ -80,6 +80,26 @@ def check_number(x):
     return t
 
 
+def check_long_join(xs):
+    """arrayJoin over a long array: every element must be printed with its own text (the text the other routes give)."""
+    from pbt.refsem.values import ref_number_string
+    d = {'kind': 'join', 'xs': enc(xs)}
+    if 'join' not in _m:
+        _m['join'] = impl.bs.parse_script("return arrayNew(arrayJoin(xs, ','), arrayJoin(arrayCopy(xs), ';'))")
+    out = impl.run_model(_m['join'], {'xs': list(xs)})
+    if out.kind != 'ok' or not isinstance(out.value, list) or not isinstance(out.value[0], str):
+        raise Violation('arrayJoin over %d numbers failed: %r' % (len(xs), out), d, 'join-fails')
+    parts = out.value[0].split(',')
+    if len(parts) != len(xs) or out.value[1].split(';') != parts:
+        raise Violation('arrayJoin over %d numbers gives %d fields' % (len(xs), len(parts)), d, 'join-fields')
+    for i, (x, t) in enumerate(zip(xs, parts)):
+        if t != ref_number_string(x):
+            raise Violation('element %d of a %d-element arrayJoin is %r but prints as %r (alone it prints as %r)' % (i, len(xs), x, t, ref_number_string(x)), d, 'join-text')
+        back = float(t)
+        if back != x or math.copysign(1, back) != math.copysign(1, float(x)):
+            raise Violation('element %d of a %d-element arrayJoin is %r, its text %r parses back to %r' % (i, len(xs), x, t, back), d, 'join-roundtrip')
+
+
 def check_parse(s, radix=None):
     d = {'kind': 'parse', 's': s, 'radix': radix}
     log = []
@@ -154,6 +174,7 @@ def plan(tier):
     specs = [{'kind': 'boundary'}, {'kind': 'nearmiss'}]
     k = 6 if tier == 'quick' else 16
     specs += [{'kind': 'numbers', 'n': 8000 if tier == 'quick' else 150000, 'k': i} for i in range(k)]
+    specs += [{'kind': 'joins', 'n': 300 if tier == 'quick' else 8000, 'k': 0}]
     specs += [{'kind': 'strings', 'n': 5000 if tier == 'quick' else 60000, 'k': i} for i in range(4 if tier == 'quick' else 16)]
     return specs
 
@@ -202,6 +223,14 @@ def run_shard(ctx, spec):
         run_hypothesis(ctx, prop, [num], spec['n'], salt=spec['k'])
         return
 
+    if spec['kind'] == 'joins':
+        def jprop(xs):
+            check_long_join(xs)
+            ctx.case(digest(repr(xs)), len(xs) >= 32 and (0.0 in xs), ['long-join', 'len>=32' if len(xs) >= 32 else 'len<32'], {'n': len(xs), 'head': xs[:6]})
+        elem = st.one_of(st.sampled_from([0.0, -0.0, 0, 1.0, -1.0, 1, 0.5, 1e21, 1e-7, 100.0, 2.5, -2.5]), gv.finite_doubles)
+        run_hypothesis(ctx, jprop, [st.sampled_from([1, 3, 16, 31, 32, 33, 48, 64, 100]).flatmap(lambda n: st.lists(elem, min_size=n, max_size=n))], spec['n'], salt=40)
+        return
+
     def sprop(s, radix):
         v = check_parse(s, radix)
         valid = re.fullmatch(r'[+-]?(\d+(\.\d*)?|\.\d+)([eE][+-]?\d+)?', s) is not None
@@ -212,7 +241,9 @@ def run_shard(ctx, spec):
 
 
 def replay(detail):
-    if detail.get('kind') == 'number':
+    if detail.get('kind') == 'join':
+        check_long_join(dec(detail['xs']))
+    elif detail.get('kind') == 'number':
         check_number(dec(detail['x']))
     else:
         check_parse(detail['s'], detail.get('radix'))
